@@ -81,7 +81,7 @@ def gen_tree(rng, version, depth, want='any', level_hint=None):
         return ['pred', gen_atom(rng, version, 'step'), gen_tree(rng, version, depth - 1)]
     if version == '3.1' and k < 0.24:
         # postfix lookup: same level as predicates
-        base = rng.choice([['var', rng.choice('vw')], ['name', rng.choice('abc')], gen_tree(rng, version, depth - 1)])
+        base = rng.choice([['var', rng.choice('vw')], ['name', _name(rng)], gen_tree(rng, version, depth - 1)])
         return ['lookup', base, rng.choice(['k', 'j', '1', '*'])]
     if k < 0.25 and depth > 1:
         return ['call', rng.choice(['boolean', 'not', 'count', 'string']), gen_tree(rng, version, depth - 1)]
@@ -118,12 +118,25 @@ KEYWORD_PREFIXES = ['p', 'div', 'and', 'or', 'mod', 'eq', 'to', 'union', 'is', '
 NAMESPACES = {k: 'http://example.com/ns/' + k for k in KEYWORD_PREFIXES}
 
 
+# element names: mostly one letter; sometimes a name that starts with an operator keyword followed by '.', '-' or '_'
+# (one NCName for every XPath version)
+KEYWORDISH_NAMES = ['to.x', 'div.class', 'if.a', 'or-b', 'and.x', 'is.valid', 'eq-1', 'in.stock', 'mod_1', 'union.x', 'return.y',
+                    'idiv-x', 'div-x', 'or.x', 'ne.a', 'lt-b', 'then.a', 'else-b', 'for.each', 'some.x', 'cast.as', 'instance.of',
+                    'intersect.x', 'except-y', 'satisfies.z', 'mod.x', 'and-also']
+
+
+def _name(rng):
+    if rng.random() < 0.12:
+        return rng.choice(KEYWORDISH_NAMES)
+    return rng.choice('abc')
+
+
 def gen_atom(rng, version, want='any'):
     if rng.random() < 0.05:
         # a prefixed name whose prefix is spelled like an operator keyword is still a name test
         return ['pname', rng.choice(KEYWORD_PREFIXES), rng.choice(['a', 'b', 'div', 'x'])]
     if want == 'step':
-        return rng.choice([['name', rng.choice('abc')], ['name', rng.choice('abc')], ['dot'], ['kind', rng.choice(['node', 'text'])]])
+        return rng.choice([['name', _name(rng)], ['name', _name(rng)], ['dot'], ['kind', rng.choice(['node', 'text'])]])
     if rng.random() < 0.08:
         return list(rng.choice(LITERALS_ANY + (LITERALS_2 if version != '1.0' else [])))
     if version == '3.1' and rng.random() < 0.06:
@@ -132,7 +145,7 @@ def gen_atom(rng, version, want='any'):
     if k < 0.45:
         return ['num', rng.randint(0, 9)]
     if k < 0.7:
-        return ['name', rng.choice('abc')]
+        return ['name', _name(rng)]
     if k < 0.8:
         if version != '1.0' and rng.random() < 0.25:
             # '$' and the name are two tokens from XPath 2.0 on (spaces and comments may separate them); names that are
